@@ -30,12 +30,15 @@ let read_table (r : cursor) (ns : int) (na : int) : q list list =
 let str_tab (t : q list list) = String.concat " | " (List.map str_qs t)
 
 (* compare two tables entrywise *)
-let cmp_tab ~(exact : bool) (clause : string) (site : string) (m : q list list) (i : q list list) =
+(* [abs_tol]: outside the exact regime, an absolute tolerance scaled to the magnitudes that entered the
+   computation (re-synchronised steps only carry a few ulps of those) instead of the default 1e-9 relative *)
+let cmp_tab ?(abs_tol : q option) ~(exact : bool) (clause : string) (site : string) (m : q list list) (i : q list list) =
   if List.length m <> List.length i then disagree clause site "row count differs";
   List.iteri (fun s (mr, ir) ->
       if List.length mr <> List.length ir then disagree clause site "row length differs";
       List.iteri (fun a (x, y) ->
-          let ok = if exact then q_eq x y else q_close x y in
+          let ok = if exact then q_eq x y else
+              (match abs_tol with Some t -> q_le (q_abs (q_sub x y)) t | None -> q_close x y) in
           if not ok then
             disagree clause site (Printf.sprintf "entry (%d,%d): model %s impl %s%s" s a (string_of_q x) (string_of_q y)
                                     (if exact then " (exact regime)" else "")))
@@ -77,6 +80,8 @@ let near_tie (rw : q list) : bool =
   match List.sort (fun x y -> q_cmp y x) rw with
   | a :: b :: _ -> q_le (q_sub a b) (q_mul tol9 (q_add q_one (q_abs a)))
   | _ -> false
+let tab_max (t : q list list) : q = List.fold_left (fun acc r -> List.fold_left (fun acc x -> q_max acc (q_abs x)) acc r) q_zero t
+let tol11 = q_of_ints 1 100000000000
 let matrix_row (m : q list list) (s : nat) : q list = List.nth m (int_of_nat s)
 let matrix_get (m : q list list) (s : nat) (a : nat) : q = List.nth (matrix_row m s) (int_of_nat a)
 
@@ -243,6 +248,11 @@ let judge _id (c : cursor) (r : cursor) : bool * string =
           let ex = mats_small && small p.sl_alpha && small p.sl_g && small lam && small tol && small !eps
                    && small_tab_n 18 (fst !state) && small_tr (snd !state)
                    && List.for_all (fun (_, _, _, _, _, rw) -> small rw) pend && List.length pend <= 1 in
+          (* tolerance of the non-exact regime: 1e-11 per un-synchronised step, relative to the largest
+             magnitude among the previous table, the dump and the rewards (a dropped term pi * Q with
+             pi >= 2^-30 is far above it, rounding of a step far below) *)
+          let mag = List.fold_left (fun acc (_, _, _, _, _, rw) -> q_max acc (q_abs rw)) (q_max (tab_max (fst !state)) (tab_max iq)) pend in
+          let atol = q_mul (q_mul tol11 (q_add q_one mag)) (qi (max 1 (List.length pend))) in
           (* O: trace range, unique keys, lambda = 0 one-step backup *)
           if lam_family && q_le tol q_one && not (traces_inb tol itr) then
             oracle_fail "trace_range" site ("stored trace outside [tol,1]: " ^ str_tr itr);
@@ -253,7 +263,7 @@ let judge _id (c : cursor) (r : cursor) : bool * string =
             let x = one_step p.sl_alpha p.sl_g q0 s a s1 rw (target_row q0 s1 a1) in
             let expect = upd2 q0 s a x in
             List.iteri (fun si (er, ir) -> List.iteri (fun ai (e, v) ->
-                if not (if ex then q_eq e v else q_close e v) then
+                if not (if ex then q_eq e v else q_le (q_abs (q_sub e v)) atol) then
                   oracle_fail "lambda0_is_one_step" site
                     (Printf.sprintf "lambda is 0 but entry (%d,%d) is %s, the one-step expected backup gives %s" si ai (string_of_q v) (string_of_q e)))
                 (List.combine er ir)) (List.combine expect iq)
@@ -264,7 +274,7 @@ let judge _id (c : cursor) (r : cursor) : bool * string =
             let (mq, mtr) = List.fold_left (fun st ((_, s, _, s1, _, _) as e) ->
                 if kind = "octl" && (near_tie (matrix_row (fst st) s1) || near_tie (matrix_row (fst st) s)) then tie := true;
                 step_with ~legacy tol' st e) !state pend in
-            cmp_tab ~exact:ex (kind ^ "_step_q") site mq iq;
+            cmp_tab ~abs_tol:atol ~exact:ex (kind ^ "_step_q") site mq iq;
             cmp_traces ~exact:ex (kind ^ "_step_traces") site mtr itr in
           (try agrees ~legacy:false tol with Disagreement (c0, s0, d0) ->
              (* general regime only: a trace whose decayed value sits within rounding of the cut-off may be
